@@ -103,9 +103,54 @@ def _shape_sets(tier):
     out.append(("duration", [DSY, DU(0), DSY]))
     out.append(("list", [L(TSY, DSY), L(TSY, DSY), None]))
     out.append(("map", [M((SK("k"), TSY)), M((SK("k"), TSY)), None]))
+    # durations written as text with parts below one microsecond, and bool operands that are *results* (of has(), in, macros, relations)
+    DT = lambda text: ("const", {"t": "duration", "text": text})
+    for a, b, c in [(DT("1ns"), DT("2ns"), DT("1us")), (DT("600ns"), DT("1us"), DT("0s")), (DT("1.0000001s"), DT("1s"), DT("1000000100ns")),
+                    (DT("-1ns"), DT("0s"), DT("1ns")), (DT("1500ns"), DT("1us"), DT("2us")), (DT("0.5us"), DT("499ns"), DT("501ns")), (DT("1h"), DT("3600s"), DT("3600000000001ns"))]:
+        out.append(("duration", [a, b, c]))
     for a, b, c in [(DU(0), DU(0), DU(1)), (DU(-1000000), DU(1000000), DU(999999)), (DU(1500000), DU(1500001), DU(1000000)), (DU(-1), DU(0), DU(1)), (DU(315576000000000000), DU(-315576000000000000), DU(86400000000))]:
         out.append(("duration", [a, b, c]))
     return out
+
+
+# bool operands that are *results* of other constructs (not variables): (source, reference truth as a function of the int x)
+PRODUCERS = [("true", lambda x: z3.BoolVal(True)), ("has(m.k)", lambda x: z3.BoolVal(True)), ("has(m.nope)", lambda x: z3.BoolVal(False)), ("(x > 0)", lambda x: x > 0),
+             ("(x in [1, 2])", lambda x: z3.Or(x == 1, x == 2)), ("[1, 2].exists(e, e > x)", lambda x: x < 2), ("[1, 2].all(e, e > x)", lambda x: x < 1),
+             ("!(x > 5)", lambda x: z3.Not(x > 5)), ("('k' in m)", lambda x: z3.BoolVal(True)), ("'ab'.startsWith('a')", lambda x: z3.BoolVal(True)),
+             ("(x > 0 || x < -3)", lambda x: z3.Or(x > 0, x < -3)), ("(x > 0 ? true : false)", lambda x: x > 0), ("bool('true')", lambda x: z3.BoolVal(True)),
+             ("[x].exists_one(e, e == 1)", lambda x: x == 1)]
+
+
+def _producer_harness(i, runner):
+    celpy, ct, ev = common.mods()
+    from ..sym.core import SInt, mk
+    X = z3.Int("x")
+    p, fp = PRODUCERS[i]
+    progs = []
+    for q, fq in PRODUCERS[:7]:
+        for src, spec in ((f"{p} == {q}", lambda a, b: a == b), (f"{p} != {q}", lambda a, b: a != b), (f"{p} < {q}", lambda a, b: z3.And(z3.Not(a), b)),
+                          (f"{p} >= {q}", lambda a, b: z3.Or(a, z3.Not(b)))):
+            progs.append((src, common.outcome(lambda: common.make_program(src, runner)), spec(fp(X), fq(X))))
+
+    def run(vals):
+        b = {"x": ct.IntType(mk(SInt, X, vals["x"])), "m": ct.MapType({ct.StringType("k"): ct.IntType(1)})}
+        obs = []
+        for src, (pk, prog), spec in progs:
+            tags = {"has": "has(" in src}
+            if pk != "value":
+                obs.append(Ob(f"C08/bool-results/construction@{runner}", z3.BoolVal(False), note=f"`{src}`: {prog!r:.100}", tags=tags))
+                continue
+            kd, r = common.outcome(lambda: prog.evaluate(dict(b)))
+            if kd != "value":
+                obs.append(Ob(f"C08/bool-results/no-error@{runner}", z3.BoolVal(False), note=f"`{src}` on two booleans gave {kd}: {str(r)[:80]}", tags=tags))
+            else:
+                obs.append(Ob(f"C08/bool-results/spec@{runner}", common.truth_term(r) == spec, note=f"`{src}`", tags=tags))
+        return obs
+
+    def witness(vals):
+        return {"check": "c08.bool_results", "args": {"i": i, "runner": runner, "x": int(vals["x"])}}
+
+    return Harness(id=f"C08/bool-results/{p}@{runner}", vars={"x": X}, pre=[X >= -10, X <= 10], run=run, witness=witness, max_paths=60)
 
 
 def tasks(tier):
@@ -117,7 +162,7 @@ def tasks(tier):
     groups = {}
     for t in ts:
         groups.setdefault((t["fam"], t["idx"] % 6), []).append(t["idx"])
-    return [{"fam": f, "idxs": idxs, "tier": tier} for (f, _), idxs in sorted(groups.items())]
+    return [{"fam": f, "idxs": idxs, "tier": tier} for (f, _), idxs in sorted(groups.items())] + [{"producer": i, "tier": tier} for i in range(len(PRODUCERS))]
 
 
 PROGS2 = ["a == b", "b == a", "a != b", "a == a", "b == b", "b != a"]
@@ -135,9 +180,11 @@ def _prog(src, runner):
 
 
 def run_task(task, kf):
+    from ..sym import loader
+    if "producer" in task:
+        return [explore.explore(_producer_harness(task["producer"], r), kf, profile_root=loader.SRC) for r in common.RUNNERS]
     sets = _shape_sets(task["tier"])
     out = []
-    from ..sym import loader
     first = True
     for idx in task["idxs"]:
         fam, shapes = sets[idx]
@@ -191,7 +238,8 @@ def _harness(fam, shapes, runner, idx):
             obs.append(Ob(f"{tag}/ge/decomposition@{runner}", T(r["a >= b"] == (r["a > b"] or r["a == b"]))))
             obs.append(Ob(f"{tag}/trichotomy@{runner}", T([r["a < b"], r["a == b"], r["a > b"]].count(True) == 1)))
             obs.append(Ob(f"{tag}/lt/asymmetric@{runner}", T(not (r["a < b"] and r["b < a"]))))
-            obs.append(Ob(f"{tag}/lt/spec@{runner}", z3.And(T(r["a < b"]) == LT, T(r["a > b"]) == GT), note="< and > agree with the reference order"))
+            if LT is not None and GT is not None:
+                obs.append(Ob(f"{tag}/lt/spec@{runner}", z3.And(T(r["a < b"]) == LT, T(r["a > b"]) == GT), note="< and > agree with the reference order"))
             if sc is not None:
                 obs.append(Ob(f"{tag}/lt/transitive@{runner}", T((not (r["a < b"] and r["b < c"])) or r["a < c"])))
                 obs.append(Ob(f"{tag}/eq/transitive@{runner}", T((not (r["a == b"] and r["b == c"])) or r["a == c"])))
